@@ -286,6 +286,13 @@ def r4(ctx):
               expected="handlers for RuntimeError/Exception re-raise", found=", ".join(short(f.qualname) for f, _ in caught))
 
 
+@rule("C20", "R6", "CONST", "the donor shortage is detected exactly when no cluster can spare m points (donor accounting of C08)")
+def r6(ctx):
+    from . import c08
+    c08.r3(ctx)
+    c08.r6(ctx)
+
+
 @rule("C20", "R5", "PURE", "a failed call leaves no module-level state behind")
 def r5(ctx):
     from .c14 import module_state_writes
